@@ -326,6 +326,7 @@ def c05(tier):
     kb.kb1(P, C)
     kb.kb2(P, C)
     kb.kb2b(P, C)
+    kb.kb2c(P, C)
     kb.kb3(P, C)
     n = kb.kb6(P, C)
     C.extra["index_sites"] = kb.kb5(P, C)
@@ -414,6 +415,7 @@ def c02(tier):
     kb.kb4(P, C)
     # derivatives in the margins use the same re-indexing as values: both margins must be reachable for every admitted table
     kb.kb2b(P, C)
+    kb.kb2c(P, C)
     kb.kb7(P, C)
     dp.cl3(P, C)
     dp.cl4(P, C)
@@ -680,6 +682,7 @@ def c01(tier):
     P = core.load(tier=tier, extra_units=selftest.UNITS)
     kb.kb2(P, C)
     kb.kb2b(P, C)
+    kb.kb2c(P, C)
     kb.kb4(P, C)
     kb.sc123(P, C)
     # the local-basis outer product is walked with scratch arrays on the stack: they must hold any dimension count
